@@ -208,6 +208,7 @@ def _run_program(prog, problems, s, sched_ref, f, con, twin, W, H, kind, auto, t
     frame_state = {"lines": list(prog.get("frame0", [])), "progress": 0}
     expected_text = {}   # marker id -> text a single-threaded print writes
     captures = {}        # (thread, op index) -> (markers, result)
+    exports = []         # results of clearing exports, in the order they completed
     calls = []           # (thread, kind, marker id) in program order per thread
 
     def body(ti, ops):
@@ -216,6 +217,9 @@ def _run_program(prog, problems, s, sched_ref, f, con, twin, W, H, kind, auto, t
                 k = op[0]
                 if k == "print":
                     con.print(marker_renderable(op[1], op[2], styled))
+                elif k == "export":
+                    # a clearing export from a thread: together with the final export it must account for every recorded line exactly once
+                    exports.append(con.export_html(clear=True) if op[1] == "html" else con.export_text(clear=True))
                 elif k == "big":
                     con.print(BigBlock(op[1], op[2]))
                 elif k == "stdout":
@@ -344,8 +348,8 @@ def _run_program(prog, problems, s, sched_ref, f, con, twin, W, H, kind, auto, t
         import re
 
         vis_file = "".join(SGR.visible(t) if "\x1b" in t else t for _, t in f.writes)
-        rec = con.export_text()
-        if display is None and rec != vis_file:
+        rec = "".join(exports) + con.export_text()
+        if display is None and not exports and rec != vis_file:
             problems.append(("record", "C11/record/content", "export_text() %r differs from the file %r (schedule %r)" % (rec, vis_file, s.trace[:6])))
         elif re.findall(r"M\d\d[a-d]", rec) != re.findall(r"M\d\d[a-d]", vis_file):
             # with a display the frames are control output (not recorded for Progress); the printed lines must still come in the file's order
@@ -397,6 +401,7 @@ def _run_program(prog, problems, s, sched_ref, f, con, twin, W, H, kind, auto, t
 
 
 PLAIN_PROGRAMS = [
+    {"record": True, "threads": [[["print", 14, 1], ["print", 15, 1]], [["export", "html"], ["print", 16, 1]], [["export", "text"]]]},
     {"record": True, "threads": [[["print", 1, 1], ["print", 2, 2]], [["print", 3, 1], ["log", 4]]]},
     {"record": False, "threads": [[["capture", [5, 6]], ["print", 7, 1]], [["print", 8, 2], ["capture", [9]]]]},
     {"record": True, "threads": [[["log", 10]], [["print", 11, 3]], [["print", 12, 1], ["print", 13, 1]]]},
@@ -528,10 +533,13 @@ class Generated(Part):
             mid = [0]
             threads = []
             use_capture = display is None and draw(st.booleans())
+            record_drawn = (not use_capture) and draw(st.booleans())
             for _ in range(nthreads):
                 ops = []
                 for _ in range(draw(st.integers(1, 4))):
                     choices = ["print", "print", "log"]
+                    if record_drawn and not use_capture:
+                        choices.append("export")
                     if use_capture:
                         choices.append("capture")
                     if display == "live":
@@ -551,6 +559,8 @@ class Generated(Part):
                             mid[0] += 1
                             ms.append(mid[0])
                         ops.append(["capture", ms])
+                    elif k == "export":
+                        ops.append(["export", draw(st.sampled_from(["html", "text"]))])
                     elif k == "update":
                         ops.append(["update", ["u%d" % i for i in range(draw(st.integers(0, 4)))], draw(st.booleans())])
                     elif k == "advance":
@@ -558,7 +568,7 @@ class Generated(Part):
                     else:
                         ops.append([k])
                 threads.append(ops)
-            p = {"display": display, "threads": threads, "record": (not use_capture) and draw(st.booleans())}
+            p = {"display": display, "threads": threads, "record": record_drawn}
             if auto:
                 p["auto"] = True
             if transient:
